@@ -59,6 +59,9 @@ def run(repo, rep):
     rule_maps(repo, rep, tm)
     rule_interface(repo, rep)
     rule_pairing(repo, rep)
+    rule_gate(repo, rep)
+    rule_option_names(repo, rep, tm)
+    rule_quant_clone(repo, rep)
     if rep.tier == "thorough":
         rule_unguarded_rewrites(repo, rep)
 
@@ -293,6 +296,81 @@ def rule_pairing(repo, rep):
 # ------------------------------------------------------------------ e (thorough)
 
 MUTATORS = {"set_input_tensor", "set_output_tensor", "set_ifm_ofm_shapes", "add_input_tensor", "replace_ifm", "set_activation_lut"}
+
+
+def rule_option_names(repo, rep, tm):
+    """An operator is written with the option table the schema names after it: if BuiltinOptions has a member
+    <CamelCase(operator)>Options, the operator's serializer must name exactly that table (the table id is written
+    into builtin_options_type, so a sibling table with the same layout reads back but is another operator's)."""
+    bo = ast.parse(repo.read_text("ethosu/vela/tflite/BuiltinOptions.py"))
+    low = {n.targets[0].id.lower(): n.targets[0].id for c in bo.body if isinstance(c, ast.ClassDef) for n in c.body if isinstance(n, ast.Assign) and isinstance(n.targets[0], ast.Name)}
+    if len(low) < 100:
+        raise AnalysisError("BuiltinOptions members not found")
+    n = 0
+    for st in tm.tree.body:
+        if isinstance(st, ast.Assign) and norm(st.targets[0]) == "builtin_operator_map" and isinstance(st.value, ast.Dict):
+            for k, v in zip(st.value.keys, st.value.values):
+                if not (isinstance(v, ast.Tuple) and len(v.elts) >= 2):
+                    continue
+                op = norm(k).split(".")[-1]
+                ser = v.elts[1]
+                nm = ser.args[0].value if isinstance(ser, ast.Call) and ser.args and isinstance(ser.args[0], ast.Constant) else None
+                want = low.get("".join(w.capitalize() for w in op.split("_")).lower() + "options")
+                if want is None:
+                    continue
+                n += 1
+                rep.check(nm == want, "C11-b", f"ethosu/vela/tflite_mapping.py:builtin_operator_map[{op}]", f"{op} is (de)serialised with its own option table {want}",
+                          f"uses {nm}: the operator is written back with builtin_options_type = {nm}, another operator's table")
+    rep.check(n >= 60, "C11-b", "ethosu/vela/tflite_mapping.py:builtin_operator_map", "operators with an option table named after them", str(n))
+
+
+def rule_quant_clone(repo, rep):
+    """QuantizationParameters.clone copies every slot from the same-named slot (the CPU-visible twin of an NPU-produced
+    tensor is such a clone, and its min / max / scale / zero point are written to the output file)."""
+    t = repo.mod("tensor")
+    cls = t.classes["QuantizationParameters"]
+    slots = None
+    for st in cls.body:
+        if isinstance(st, ast.Assign) and norm(st.targets[0]) == "__slots__":
+            slots = try_fold(st.value)
+    cl = t.func("QuantizationParameters.clone")
+    if not slots:
+        raise AnalysisError("QuantizationParameters.__slots__ not found")
+    got = {}
+    for st in ast.walk(cl):
+        if isinstance(st, ast.Assign) and isinstance(st.targets[0], ast.Attribute) and norm(st.targets[0].value) == "res":
+            got.setdefault(st.targets[0].attr, []).append(st.value)
+    site = "ethosu/vela/tensor.py:QuantizationParameters.clone"
+    for sl in slots:
+        vals = got.get(sl, [])
+        ok = bool(vals) and all(any(isinstance(a, ast.Attribute) and norm(a) == f"self.{sl}" for a in ast.walk(v)) and
+                                not any(isinstance(a, ast.Attribute) and norm(a.value) == "self" and a.attr != sl and a.attr in slots for a in ast.walk(v)) for v in vals)
+        rep.check(ok, "C11-d", site, f"clone copies slot `{sl}` from self.{sl}", "; ".join(norm(v) for v in vals) or "slot not copied")
+    rep.check(len(slots) >= 8, "C11-d", site, "slots enumerated", str(len(slots)))
+
+
+def rule_gate(repo, rep):
+    """rewrite_graph_pre_order.visit_op: the gate `res.run_on_npu or rewrite_unsupported` is evaluated before every single
+    rewrite (a rewrite - the supported-operator check first of all - may clear run_on_npu, and the following rewrites of
+    the same list must then leave the operator alone)."""
+    rep.clause("C11-f", "graph traversal re-evaluates `run_on_npu or rewrite_unsupported` before every single operator rewrite, so an operator sent to the CPU by one rewrite is not touched by the next")
+    m = repo.mod("rewrite_graph")
+    site = "ethosu/vela/rewrite_graph.py:rewrite_graph_pre_order.visit_op"
+    vo = m.func("rewrite_graph_pre_order.visit_op")
+    c = cfg_of(vo)
+    gates = c.nodes_where(lambda n: n.kind == "test" and "run_on_npu" in norm(n.expr) and "rewrite_unsupported" in norm(n.expr))
+    calls = c.nodes_where(lambda n: n.stmt is not None and isinstance(n.stmt, ast.Assign) and isinstance(n.stmt.value, ast.Call) and norm(n.stmt.value.func) == "rewrite" and n.kind != "test")
+    if len(gates) != 1 or len(calls) != 1:
+        raise AnalysisError(f"visit_op: gate / rewrite call not recognised (gates {len(gates)}, calls {len(calls)})")
+    g, k = gates[0], calls[0]
+    t = norm(c.nodes[g].expr)
+    rep.check(t in ("res.run_on_npu or rewrite_unsupported", "rewrite_unsupported or res.run_on_npu"), "C11-f", site, "gate is `res.run_on_npu or rewrite_unsupported` on the current result", t)
+    fs = c.branch_succ(g, False)
+    on_true = c.dominates(g, k) and all(f != k and not c.path_avoiding(f, k, [g]) for f in fs)
+    rep.check(on_true, "C11-f", site, "a rewrite runs only on the gate's true branch", "the rewrite call is reachable without the gate holding")
+    rep.check(not c.path_avoiding(k, k, [g]), "C11-f", site, "between two rewrites of one operator the gate is evaluated again",
+              "a path leads from one rewrite call to the next without passing the gate: after supported_operator_check has cleared run_on_npu, the remaining rewrites of the list still modify the CPU operator")
+    rep.floor("C11-f", 3)
 
 
 def rule_unguarded_rewrites(repo, rep):
